@@ -10,16 +10,23 @@ Z1_TYPES = ["rt::path::Path", "rt::path::Schedule", "rt::path::Load", "rt::path:
             "rt::object::Store", "rt::object::Ref", "rt::vv::VersionVec"]
 
 
+def _serde_fns(prog, ty):
+    ser = None
+    seq = None
+    for k, fn in prog.fns.items():
+        if fn.j.get("impl_adt") == ty and str(fn.j.get("impl_trait", "")).endswith("_serde::Serialize") and k.endswith("::serialize"):
+            ser = k
+        if (("for %s>::deserialize::__Visitor" % ty) in k or ("for %s<" % ty) in k and ">::deserialize::__Visitor" in k) and k.endswith("::visit_seq"):
+            seq = k
+    return ser, seq
+
+
 def Z1(ctx):
-    """Serialisation completeness of the checkpointed path (feature `checkpoint`)."""
+    """Serialisation completeness of the checkpointed path (feature `checkpoint`), read off the *expanded* derives:
+    `serialize` emits every field / variant under its own name from the same field of self, and the sequence visitor of
+    `deserialize` fills every field from the input (no skipped / defaulted field)."""
     prog = ctx.prog
-    have = {}
-    for im in prog.impls:
-        tr = im.get("trait")
-        if tr in ("serde::Serialize", "serde::Deserialize"):
-            base = im["self_ty"].split("<")[0]
-            have.setdefault(base, set()).add(tr.split("::")[-1])
-    if not have:
+    if not any(str(im.get("trait", "")).endswith("_serde::Serialize") or im.get("trait") == "serde::Serialize" for im in prog.impls):
         ctx.notes.append("Z1 skipped in config %s: checkpoint feature not compiled" % ctx.config)
         return
     n = 0
@@ -29,30 +36,53 @@ def Z1(ctx):
             ctx.missing("Z1", ty)
             continue
         n += 1
-        got = have.get(ty, set())
-        if got != {"Serialize", "Deserialize"}:
-            ctx.bad("Z1", ty, "%s is part of the checkpointed path but implements only %s" % (ty, sorted(got)), "%s:%s" % (adt["file"], adt["line"]),
-                    detail="impl")
+        loc = "%s:%s" % (adt["file"], adt["line"])
+        ser, seq = _serde_fns(prog, ty)
+        if ser is None or (seq is None and adt["kind"] == "struct"):
+            ctx.bad("Z1", ty, "%s is part of the checkpointed path but does not derive Serialize and Deserialize" % ty, loc, detail="impl")
             continue
-        bad = []
-        nf = 0
-        for v in adt["variants"]:
-            for a in v.get("attrs", []):
-                if "serde" in a and ("skip" in a or "default" in a or "with" in a or "rename" in a or "other" in a):
-                    bad.append("%s: %s" % (v["name"], a))
-            for f in v["fields"]:
-                nf += 1
-                for a in f.get("attrs", []):
-                    if "serde" in a:
-                        bad.append("%s.%s: %s" % (v["name"], f["name"], a))
-        for a in adt.get("attrs", []):
-            if "serde(" in a and any(x in a for x in ("skip", "default", "from", "into", "transparent", "remote")):
-                bad.append("type: " + a)
-        if bad:
-            ctx.bad("Z1", ty, "field(s) of %s are not round-tripped by the derive: %s - a reloaded checkpoint differs from the stored path" % (ty, bad),
-                    "%s:%s" % (adt["file"], adt["line"]), detail="attr")
+        fn = prog.fns[ser]
+        inst = prog.ident(ser)
+        ctx.touch(ser, 1)
+        if adt["kind"] == "struct":
+            fields = [f["name"] for f in adt["variants"][0]["fields"]]
+            got = {}
+            for (b, t, c) in prog.sites(inst):
+                k = prog.callee_key(c)
+                if k.endswith("SerializeStruct::serialize_field") or k.endswith("SerializeTupleStruct::serialize_field"):
+                    nm = canon(arg_expr(fn.body, t, 1)).strip('"') if k.endswith("SerializeStruct::serialize_field") else str(len(got))
+                    val = arg_expr(fn.body, t, 2 if k.endswith("SerializeStruct::serialize_field") else 1)
+                    got[nm] = canon(strip(val))
+                if k.endswith("Serializer::serialize_newtype_struct"):
+                    got[fields[0]] = canon(strip(arg_expr(fn.body, t, 2)))
+            missing = [f for f in fields if got.get(f) != "self." + f]
+            sfn = prog.fns[seq]
+            ctor_ok = False
+            defaults = []
+            for b, blk in enumerate(sfn.body.blocks):
+                for st in blk["stmts"]:
+                    if st["k"] == "=" and st["rv"]["k"] == "agg" and st["rv"].get("adt") == ty:
+                        ctor_ok = True
+                        for f, o in zip(st["rv"]["field_names"], st["rv"]["ops"]):
+                            e = sfn.body.expr_of_operand(o)
+                            if "next_element" not in canon(e):
+                                defaults.append(f)
+            if missing or defaults or not ctor_ok:
+                ctx.bad("Z1", ty, "field(s) of %s are not round-tripped by the derived (de)serialisation: not serialised %s, not read back %s - "
+                        "a reloaded checkpoint differs from the stored path" % (ty, missing, defaults), loc, detail="attr")
+            else:
+                ctx.ok("Z1", ty, "all %d field(s) serialised under their own name and read back" % len(fields), [prog.fns[ser].loc()])
         else:
-            ctx.ok("Z1", ty, "Serialize + Deserialize derived, %d field(s), none skipped/defaulted" % nf, ["%s:%s" % (adt["file"], adt["line"])])
+            variants = [v["name"] for v in adt["variants"]]
+            got = set()
+            for (b, t, c) in prog.sites(inst):
+                k = prog.callee_key(c)
+                if k.endswith("Serializer::serialize_newtype_variant") or k.endswith("Serializer::serialize_unit_variant"):
+                    got.add(canon(arg_expr(fn.body, t, 3)).strip('"'))
+            if got == set(variants):
+                ctx.ok("Z1", ty, "all %d variant(s) serialised" % len(variants), [prog.fns[ser].loc()])
+            else:
+                ctx.bad("Z1", ty, "variant(s) %s of %s are not serialised" % (sorted(set(variants) - got), ty), loc, detail="attr")
     ctx.floor("Z1", n, 9, "Path, Schedule, Load, Spurious, Entry, Thread, Store, Ref, VersionVec")
 
 
